@@ -40,9 +40,9 @@ def corpus_cases():
 
 def streams(tier, seed):
     rng = random.Random(seed)
-    nrand = 260 if tier == "quick" else 6000
+    nrand = 260 if tier == "quick" else 10000
     rand = [W.gen_case(rng, size=4) for _ in range(nrand)]
-    files = [W.gen_case(rng, size=3, source="file") for _ in range(12 if tier == "quick" else 200)]
+    files = [W.gen_case(rng, size=3, source="file") for _ in range(12 if tier == "quick" else 300)]
     small = list(small_scope(2 if tier == "quick" else 3))
     if tier == "quick":
         three = list(small_scope(3))[72:]
